@@ -44,7 +44,8 @@ def run_whip(argv):
 def run_scenario(chk, sc, cfgseed, dtype, axes, flavour="sched", workers=None):
     rng = random.Random(cfgseed)
     cfg_ = gamma.Config.draw(rng, ndims=3, payload="tame", numfmt="g6" if cfgseed % 4 == 0 else "repr")
-    lat = lattice.Lattice(sc["mesh"], sc["n1"], sc["n2"], axes=axes, ext0=[3, 4, 2, 5][cfgseed % 4], ext_cut=(cfgseed // 4) % 3 != 0)
+    lat = lattice.Lattice(sc["mesh"], sc["n1"], sc["n2"], axes=axes, ext0=[3, 4, 2, 5][cfgseed % 4], ext_cut=(cfgseed // 4) % 3 != 0,
+                          tile=2 if cfgseed % 7 == 3 else None)       # one in seven: the same cells in many small boxes
     nfiles = sc["nfiles"]
     # boxes dealt over the files round-robin, from the first file or from the last one: with an uneven deal the files with
     # the most boxes (the largest, read first) are then the first-named or the last-named ones
@@ -68,6 +69,8 @@ def run_scenario(chk, sc, cfgseed, dtype, axes, flavour="sched", workers=None):
     os.makedirs(d)
     src, out = os.path.join(d, "plt00010"), os.path.join(d, "grid")
     gamma.write_plotfile(src, ap, cfg_, values=flds.values)
+    if cfgseed % 5 == 2:
+        gamma.add_stale_files(src, ap, cfg_, cfgseed)       # left-overs of an earlier, larger plotfile in the same directory
     before = alpha.tree_digest(src)
     lim = sc["lim"]
     plan, pos = {}, 0
